@@ -326,27 +326,103 @@ def check(model, rep, tier):
               '%s must map to %s' % (k, want), {'maps_to': eo.get(k)})
   ov = model.func(lm.rel, 'LogicalExpressionTransformer._overload_of')
   cls = model.cls(lm.rel, 'LogicalExpressionTransformer')
-  T = trav.HandlerTraversal(model, cls)
-  exits = T.analyse(ov, {})
-  unconditional_logical = False
-  eq_under_feature = False
-  for ex in exits:
-    v = core.norm(ex.value) if ex.value is not None else ''
-    g = ex.guards
-    if v.startswith('LOGICAL_OPERATORS[') and len(g) == 1 and g[0][0] == 'T' and \
-        g[0][1].endswith('in LOGICAL_OPERATORS'):
-      unconditional_logical = True
-    if v.startswith('EQUALITY_OPERATORS[') and any(
-        'EQUALITY_OPERATORS)' in t and p == 'T' for p, t in g) and not any(
-            p == 'T' and 'LOGICAL_OPERATORS' in t for p, t in g):
-      eq_under_feature = True
+  # what _overload_of returns for each kind of operator and feature setting,
+  # evaluated concretely on (kind, feature) over path-wise symbolic values
+  from sa import pathsym
+  opp = ov.params()[0]
+
+  def _is_optype(e):
+    return core.norm(e) in ('op_type', 'type(%s)' % opp) or (
+        isinstance(e, ast.Name) and tpl.xnorm(ov, e, e) == 'type(%s)' % opp)
+
+  def _val(e, kind, feat):
+    """'L' / 'E' (an entry of the table), None, or '?'"""
+    if isinstance(e, ast.Constant) and e.value is None:
+      return None
+    for tab, k in (('LOGICAL_OPERATORS', 'L'), ('EQUALITY_OPERATORS', 'E')):
+      if isinstance(e, ast.Subscript) and core.norm(e.value) == tab and _is_optype(e.slice):
+        return k if kind == k else '?'          # KeyError otherwise
+      if isinstance(e, ast.Call) and core.norm(e.func) == tab + '.get' and e.args and \
+          _is_optype(e.args[0]) and (len(e.args) == 1 or (
+              isinstance(e.args[1], ast.Constant) and e.args[1].value is None)):
+        return k if kind == k else None
+    if isinstance(e, ast.IfExp):
+      t = _tr(e.test, kind, feat)
+      return '?' if t is None else _val(e.body if t else e.orelse, kind, feat)
+    if isinstance(e, ast.BoolOp) and isinstance(e.op, ast.Or):
+      for v in e.values:
+        r = _val(v, kind, feat)
+        if r == '?':
+          return '?'
+        if r is not None:
+          return r
+      return None
+    return '?'
+
+  def _tr(t, kind, feat):
+    if isinstance(t, ast.BoolOp):
+      vs = [_tr(v, kind, feat) for v in t.values]
+      if isinstance(t.op, ast.And):
+        return False if any(v is False for v in vs) else (
+            True if all(v is True for v in vs) else None)
+      return True if any(v is True for v in vs) else (
+          False if all(v is False for v in vs) else None)
+    if isinstance(t, ast.UnaryOp) and isinstance(t.op, ast.Not):
+      v = _tr(t.operand, kind, feat)
+      return None if v is None else (not v)
+    if isinstance(t, ast.Compare) and len(t.ops) == 1:
+      op = t.ops[0]
+      if isinstance(op, (ast.In, ast.NotIn)) and _is_optype(t.left):
+        tab = core.norm(t.comparators[0])
+        r = {'LOGICAL_OPERATORS': kind == 'L', 'EQUALITY_OPERATORS': kind == 'E'}.get(tab)
+        if r is None:
+          return None
+        return r if isinstance(op, ast.In) else (not r)
+      if isinstance(op, (ast.Is, ast.IsNot)) and isinstance(
+          t.comparators[0], ast.Constant) and t.comparators[0].value is None:
+        v = _val(t.left, kind, feat)
+        if v == '?':
+          return None
+        return (v is None) if isinstance(op, ast.Is) else (v is not None)
+    if isinstance(t, ast.Call) and core.norm(t).endswith(
+        '.uses(converter.Feature.EQUALITY_OPERATORS)'):
+      return feat
+    v = _val(t, kind, feat)          # truthiness of a looked-up entry
+    if v != '?':
+      return v is not None
+    return None
+
+  rets_ = [r for r in core.walk_no_nested(ov.node) if isinstance(r, ast.Return)]
+  paths = []
+  for r in rets_:
+    val = r.value if r.value is not None else ast.Constant(None)
+    if r.value is None:
+      paths += [(c, ast.Constant(None)) for c, v in pathsym.path_values(
+          ov.node, r, ast.Constant(None))]
+    else:
+      paths += pathsym.path_values(ov.node, r, r.value)
+  answers = {}
+  for kind in ('L', 'E', 'other'):
+    for feat in (False, True):
+      got = set()
+      for conds, v in paths:
+        ts = [_tr(t, kind, feat) for pol, t in conds]
+        if any(x is None for x in ts):
+          got.add('?')
+          continue
+        if all(x == (pol == 'T') for x, (pol, t) in zip(ts, conds)):
+          got.add(_val(v, kind, feat))
+      answers[(kind, feat)] = got
+  unconditional_logical = answers[('L', False)] == {'L'} and answers[('L', True)] == {'L'}
+  eq_under_feature = answers[('E', True)] == {'E'} and answers[('E', False)] == {None} \
+      and answers[('other', True)] == {None} and answers[('other', False)] == {None}
+  facts_ov = {'%s,feature=%s' % k: sorted(map(str, v)) for k, v in answers.items()}
   rep.check(unconditional_logical, 'TABLE', '%s:logical-unconditional' % ov.site,
             'and/or/not must get their overload regardless of options',
-            {'exits': [(core.norm(e.value) if e.value is not None else None,
-                        e.guards) for e in exits]}, line=ov.node.lineno)
+            facts_ov, line=ov.node.lineno)
   rep.check(eq_under_feature, 'TABLE', '%s:equality-under-feature' % ov.site,
             '==/!= get their overload exactly under the EQUALITY_OPERATORS '
-            'feature', {}, line=ov.node.lineno)
+            'feature; other operators get none', facts_ov, line=ov.node.lineno)
 
   # ---------------------------------------------------------------- NOSKIP
   def skip_setters(tree):
